@@ -455,8 +455,8 @@ def str_method(I, self, meth, args, kwargs, fr, node):
         return I.call_extern('str.split', [s, args[0]], {}, fr)
     if meth == 'splitlines' or meth == 'split':
         raise Unsupported('str.%s' % meth)
-    if meth == 'isdigit':
-        F = z3.Function('isdigit', z3.StringSort(), z3.BoolSort())
+    if meth.startswith('is') and not args:
+        F = z3.Function(meth, z3.StringSort(), z3.BoolSort())       # isdigit, isascii, isalpha, ...: a predicate of the text
         return VBool(F(s.t))
     raise Unsupported('str method %s' % meth)
 
